@@ -160,7 +160,7 @@ def degree(e: Expr, decl: DegDecl):
                 return d
         if name in ("abs", "float32", "neg", "sort", "cumsum", "real"):
             return ds[0]
-        if name in ("max", "min", "where", "clip", "hypot"):
+        if name in ("max", "min", "where", "clip", "hypot", "l1_sorted", "l1_positional"):
             d = POLY
             for x in ds:
                 d = _dj(d, x, e)
@@ -408,6 +408,10 @@ def weight(e: Expr, decl: ShiftDecl):
             return w
         if name in ("float32", "sort", "real"):
             return ws[0]
+        if name in ("l1_sorted", "l1_positional"):
+            # Σ|sorted(a) − sorted(b)|: every element of both vectors must move by the same amount
+            w = _wj(ws[0], ws[1], e)
+            return w if is_top(w) else sym.ZERO
         if all(w in (sym.ZERO, ANYW) for w in ws):
             return sym.ZERO
         return Top(f"{name}() of a translation-dependent quantity (weight {sym.show(ws[0])})", e)
@@ -415,7 +419,9 @@ def weight(e: Expr, decl: ShiftDecl):
         w = weight(e[3], decl)
         if is_top(w) or w in (sym.ZERO, ANYW):
             return w if is_top(w) else sym.ZERO
-        return Top("sum over rows of a translation-dependent quantity (moves by n*w*t)", e)
+        if sym.free_ivars(w):
+            return Top("sum over rows of a quantity whose translation weight varies with the row", e)
+        return sym.mul(sym.Size(e[2]), w)  # moves by n*w*t
     if t == "red":
         w = weight(e[4], decl)
         if e[1] in ("all", "any"):
